@@ -3,17 +3,25 @@ package drivers
 import (
 	"fmt"
 
-	"verif/h/rt/vsched"
+	"github.com/gr33nbl00d/caddy-revocation-validator/config"
 )
 
 func init() { registry["DBG"] = runDbg }
 
 func runDbg(tier string, args []string) int {
-	sc := findC09Scenario("f2-failed-swap-vs-handshake/disk")
-	res, obs := sc.runConcurrent(vsched.SeqChooser{}, true)
-	fmt.Println(res.Verdict, obs, res.Detail)
-	for _, t := range res.Trace {
-		fmt.Println("  ", t)
+	c := newC10Cast()
+	cfg := c10Cfg{CDP: 0, Background: false, Sig: config.SignatureValidationModeVerify, Disk: true, Strict: true}
+	ev := c10EventNames(cfg)
+	idx := func(n string) int {
+		for i, e := range ev {
+			if e == n {
+				return i
+			}
+		}
+		panic(n)
 	}
+	h := []int{idx("set(http://crl.test/a.crl,badsig)"), idx("hs(listed)"), idx("restart"), idx("hs(clean)")}
+	r := c.run(cfg, h)
+	fmt.Println(r.key, r.viols, r.trace)
 	return 0
 }
